@@ -3,6 +3,7 @@ import N0Verif.Proofs.XPathSelect3
 import N0Verif.Proofs.XPathAudit
 import N0Verif.Proofs.XPathListDeep
 import N0Verif.Proofs.XPathListDeepSp
+import N0Verif.Proofs.XPathIdxBlank
 /-!
 # C06 — wildcard and predicate steps select exactly the matching elements, in order
 
@@ -1675,6 +1676,46 @@ example :
     show selectChainedG false ['i'] ['t'] (condTest ['=', '='] (.str ['1'])) ['s'] ['q'] (condTest ['=', '='] (.str ['B'])) ordersRootList
       = [.int 2] by decide] at this
   exact ⟨this.2.1, this.2.2⟩
+
+
+/-! ## index spellings with blanks inside the brackets (worker `c06spell`; token level)
+
+`split_name_index` strips the text between the brackets: `[ 1 ]`, `a[ -1 ]`, `[ last() ]` are index tokens for the stripped
+expression (`Proofs/XPathIdxBlank.lean`), so every token-level theorem above (`C06_star_spelled`, `C06_pred_spelled`,
+`C06_chained_spelled` - any `Sel3Spells` token list) covers them. -/
+
+/-- **C06 (index tokens padded with whitespace).**  For every index spelling `e` (`i`, `-k`, `last()`, `last()-k`, `i+j`) and any
+whitespace paddings, `[ e ]` is an index token and `name[ e ]` a key-with-index token for the value of `e`. -/
+theorem C06_idx_blank_tok (e : IdxSp) (wl wr : Str) (hwl : ∀ c ∈ wl, isPySpace c = true) (hwr : ∀ c ∈ wr, isPySpace c = true) :
+    IdxTok (bracket (wl ++ e.text ++ wr)) e.text e.val ∧
+    ∀ name, PlainKey name → KeyIdxTok (name ++ bracket (wl ++ e.text ++ wr)) name e.text e.val :=
+  ⟨e.idxTok_pad wl wr hwl hwr, fun _ hk => e.keyIdxTok_pad hk wl wr hwl hwr⟩
+
+/-- the token `a[ -1 ]` spells the position of the record list of `deep` … -/
+def deepBlankToks : List Str := [['a'] ++ bracket ([' '] ++ (IdxSp.neg 1).text ++ [' '])]
+example : deepBlankToks = [['a', '[', ' ', '-', '1', ' ', ']']] := by decide
+theorem deep_blank_spelled : Sel3Spells deepBlankToks deep [.key ['a'], .idx 1] (.list .plain recsList) :=
+  .keyIdx ((C06_idx_blank_tok (.neg 1) [' '] [' '] (by decide) (by decide)).2 _ plainKey_a) plainKey_a rfl (by decide) rfl (.nil _)
+/-- … so `C06_pred_spelled` speaks of `a[ -1 ]`,`[k=1]`,`f` and `a[ -1 ]`,`k[text()=1]`,`..`,`f` (non-vacuity) -/
+example : ∀ tail ∈ [[bracket (['k'] ++ ['='] ++ ['1']), ['f']], [['k'] ++ bracket (sTextFn ++ ['='] ++ ['1']), ['.', '.'], ['f']]],
+    ∃ r, findD 40 deep [] false true (deepBlankToks ++ tail) (.at []) true slash = .ok (deep, r) ∧
+      r.value = .list .n0 [.str ['x'], .str ['y']] := by
+  intro tail htail
+  obtain ⟨r, hr, hf, hv⟩ := (C06_pred_spelled deep true deepBlankToks _ _ recsList ['k'] ['f'] ['='] _ _ ['1'] deep_blank_spelled
+    fieldKey_k plainKey_f .eq1 (.bare ['1']) plainLit_1 (by decide) (by decide) 40 (by decide)).1 tail htail
+  rw [show selectWhere ['k'] ['f'] (condTest ['=', '='] (.str ['1'])) recsList = [.str ['x'], .str ['y']] by decide] at hf hv
+  exact ⟨r, hr, hv (by simpa using hf)⟩
+/-- the model on the STRINGS `a[ -1 ][k=1]/f`, `/a/[ last() ]/k[text()=1]/../f`, `a[ 0 + 1 ][*]/f` (tokenised as above; the real code
+returns the same `['x', 'y']`) -/
+theorem C06_idx_blank_example :
+    tokenize ['a', '[', ' ', '-', '1', ' ', ']', '[', 'k', '=', '1', ']', '/', 'f'] = deepBlankToks ++ [['[', 'k', '=', '1', ']'], ['f']] ∧
+    (XPath.getItem 60 deep ['a', '[', ' ', '-', '1', ' ', ']', '[', 'k', '=', '1', ']', '/', 'f']).2
+      = .ok (.list .n0 [.str ['x'], .str ['y']]) ∧
+    (XPath.getItem 60 deep ['/', 'a', '/', '[', ' ', 'l', 'a', 's', 't', '(', ')', ' ', ']', '/', 'k', '[', 't', 'e', 'x', 't', '(', ')', '=', '1', ']',
+      '/', '.', '.', '/', 'f']).2 = .ok (.list .n0 [.str ['x'], .str ['y']]) ∧
+    (XPath.getItem 60 deep ['a', '[', ' ', '0', ' ', '+', ' ', '1', ' ', ']', '[', '*', ']', '/', 'f']).2
+      = .ok (.list .n0 [.str ['x'], .str ['y']]) := by
+  decide +kernel
 
 
 /-! ## literal values a condition cannot express (finding C06-g, open)
